@@ -17,6 +17,7 @@ def fetchRef (env : Env W HS) (x : String) : M W HS Unit :=
       match interactSem env x .noneV (annValOpt env none) ((env.host.glob x).getD .absent) true st with
       | (.ok r, st1) => setLoc x (some r) st1
       | (.err e, st1) =>
+        if isFatal e then (.err e, st1) else
         match env.host.glob nNameError with
         | some c => if env.host.isinst e c then (.ok (), st1) else (.err e, st1)
         | none => (.err (env.host.nameError nNameError), st1)
